@@ -296,6 +296,7 @@ type BlockOpts struct {
 	Viol         string // "" = valid block; else one contextual violation (C04 catalogue)
 	ViewFrom     *Node  // build on an INVALID parent: take the coins from this (valid) ancestor's view
 	Fat          int    // >0: the coinbase gets an extra zero-value output with a script of this many bytes
+	FatN         int    // that many more of them
 }
 
 // C04Violations is the catalogue of contextual violations Build knows.
@@ -628,7 +629,9 @@ func (m *Miner) Build(parent *Node, o BlockOpts) (b *Block, ok bool) {
 	cb := m.Coinbase(height, claim, 1+m.R.Pick(30, 30, 25, 15), m.extra)
 	if o.Fat > 0 {
 		// a bulky (never spent) output, so that the unspent set outgrows one snapshot write buffer quickly
-		cb.Out = append(cb.Out, TxOut{0, append([]byte{0x51, 0x75}, make([]byte, o.Fat)...)})
+		for k := 0; k <= o.FatN; k++ {
+			cb.Out = append(cb.Out, TxOut{0, append([]byte{0x51, 0x75, byte(k)}, make([]byte, o.Fat)...)})
+		}
 		cb.Touch()
 	}
 	if o.Viol == "own-coinbase" {
